@@ -24,7 +24,7 @@ func init() {
 	})
 	register(PropInfo{
 		ID: "C12",
-		Explanation: "All-paths decision of the structural clauses of C12 (DESIGN.md section 4, C12): (R1) check-then-act: between entering Plans.Start and registering/launching the plan there is a point only one of two concurrent callers can pass (a lock held across the waiter lookup, Read, validation and registration, or an insert-if-absent whose result is branched on) — its absence is a sound refutation; (R2) validateStartState rejects a zero maxSubmit, a zero or stale SubmitTime and runs the four registered validators over every object, validateState requires NotStarted and zero times; (R3) the API layer contains no panic/Fatal/Exit site other than the enumerated storage-write-failure sites, and no close() of a channel obtained from a map lookup whose ok result is ignored; (R4) exported Workstream methods nil-check pointer parameters before first use; (R5) library calls that panic on a non-positive argument (time.NewTicker) are reached only with an argument established positive.",
+		Explanation: "All-paths decision of the structural clauses of C12 (DESIGN.md section 4, C12): (R1) check-then-act: between entering Plans.Start and registering/launching the plan there is a point only one of two concurrent callers can pass (a lock held across the waiter lookup, Read, validation and registration, or an insert-if-absent whose result is branched on) — its absence is a sound refutation; (R2) validateStartState rejects a zero maxSubmit, a zero or stale SubmitTime and runs the four registered validators over every object, validateState requires NotStarted and zero times; (R3) the API layer contains no panic/Fatal/Exit site other than the enumerated storage-write-failure sites, and no close() of a channel obtained from a map lookup whose ok result is ignored; (R4) exported Workstream methods nil-check pointer parameters before first use; (R5) library calls that panic on a non-positive argument (time.NewTicker) are reached only with an argument established positive; (R6) the Status iterator tests every yield result and stops at once (continuing after the consumer stopped panics the runtime). R2 also decides that each public option forwards to the internal option of the same name and that it sets the field it is named after.",
 		NotDecided:  []string{"exactly-once under real races beyond the necessary condition", "arbitrary API call histories"},
 		Assumptions: []string{"ShardedMap Get/Set/Del are individually atomic but not jointly", "time.NewTicker panics for d <= 0"},
 		Rules:       rulesC12,
@@ -66,7 +66,16 @@ func rulesC10(r *Run) {
 		ruleFixPrologue(r, "R3", k)
 	}
 	ruleFixNotStarted(r, "R3")
-	r.Expect("R3", 18)
+	ruleRunActionGuards(r, "R3")
+	ruleStartGuard(r, "R3")
+	ruleExecSeqGuard(r, "R3")
+	ruleLaunchGuard(r, "R3")
+	ruleSkipBlock(r, "R3")
+	ruleIsCompleted(r, "R3")
+	ruleFixBlockLaunch(r, "R3")
+	ruleSkipRecoveredChecks(r, "R3")
+	ruleRecoveryNoEarlyWrite(r, "R3")
+	r.Expect("R3", 29)
 }
 
 // ruleNewRecovers: New calls recover() iff the recovery flag is set.
@@ -415,7 +424,8 @@ func rulesC11(r *Run) {
 
 	r.Kind("R4", "K2")
 	ruleNewRecovers(r, "R4", false)
-	r.Expect("R4", 2)
+	ruleOptionWiring(r, "R4")
+	r.Expect("R4", 8)
 
 	r.Kind("R5", "K4")
 	r.CallersWithin("R5", execKey("Plans.runPlan"), execKey("Plans.Start"), execKey("Plans.recover"))
@@ -894,7 +904,8 @@ func rulesC12(r *Run) {
 
 	r.Kind("R2", "K5+K2")
 	ruleValidateStartState(r, "R2")
-	r.Expect("R2", 5)
+	ruleOptionWiring(r, "R2")
+	r.Expect("R2", 11)
 
 	r.Kind("R3", "K4")
 	ruleNoPanicSites(r, "R3")
@@ -908,6 +919,12 @@ func rulesC12(r *Run) {
 	r.Kind("R5", "K5")
 	rulePositiveArgs(r, "R5")
 	r.Expect("R5", 2)
+
+	r.Kind("R6", "K6")
+	if fn := r.fnByKey("R6", "coercion.Workstream.Status"); fn != nil {
+		ruleYieldDiscipline(r, "R6", fn, nil)
+	}
+	r.Expect("R6", 2)
 }
 
 // ruleStartExclusion: a lock (or insert-if-absent) makes Read+validate+register atomic per plan.
